@@ -727,4 +727,19 @@ Proof.
   destruct (e_load x); reflexivity.
 Qed.
 
+(* more positionals than the function has positional parameters (no star-args): signature.bind_partial fails, the wrapper
+   reports ValidateException - the base class of TooManyArguments - and the body does not run *)
+Theorem too_many_positionals : forall is_async c,
+  d_ignore_input dc = false -> List.length (pos_params value sg) < List.length (c_args c) ->
+  (forall kw, In kw (c_kwargs c) -> exists v, snd (step_m false (fst kw) (snd kw)) = WOk v) ->
+  snd (vrun is_async c) = FRaise ValidateExceptionC None.
+Proof.
+  intros is_async c Ig L Hk. rewrite run_ref_nv. cbn [snd]. unfold ValidateRef.wc_ref. rewrite Ig, snd_mbind.
+  assert (exists l, snd (seqm (aitems value is_none dc false (c_kwargs c))) = WOk l) as [l E].
+  { unfold aitems. induction (c_kwargs c) as [|kw ks IH]; [exists []; reflexivity|].
+    destruct (Hk kw (or_introl eq_refl)) as [v Hv]. destruct IH as [l El]; [intros; apply Hk; now right|].
+    exists ((fst kw, v) :: l). cbn [map ValidateRef.seqm]. rewrite snd_mbind, Hv, snd_mbind. unfold aitems in El. now rewrite El. }
+  rewrite E. unfold bind_partial. rewrite NV. apply Nat.ltb_lt in L. now rewrite L.
+Qed.
+
 End Gate.
